@@ -14,6 +14,26 @@ CLAIMS = {
         text="Contracts on the real per-axis kernels (HorizontalZoomMinMax, HorizontalZoom, VerticalZoom) prove, for every (input zoom, output zoom) pair in 0..35^2 and every index, the exact enumeration: zoom-in yields the 2^d (4^d) descendants in row-major order, zoom-out the floor ancestor (negative vertical indices included). Loop invariants are quantified, so list lengths are unbounded.",
         note=TRUST + "The cross-product/Unique level of ChangeExtendedSpatialIdsZoom is covered by the contracts of Unique and of the kernels; its own set-level postcondition is listed in DESIGN.md as not yet discharged.",
         tech="deductive verification: weakest-precondition VCs over go/ssa with contracts, exhaustive zoom case split, SMT (z3)", ref="4 C03"),
+    "C05": dict(
+        text="The extended-ID checks are proved exact: CheckExtendedSpatialIdsOverlap returns true iff the two voxels' ancestors at the coarser zoom coincide on both axes (for all valid IDs, all zooms symbolic), errors give false; the array form is proved equal to the disjunction of the pairwise relation with empty lists giving false (nested quantified invariants); symmetry and reflexivity are lemmas. The D obligations (constant index into map-ordered slices) are discharged from the zoom-change contract.",
+        note=TRUST + "The spatial-ID (radix-tree) form is third-party code: not under contract in this check (its panics on empty input and its sub-metre imprecision were found by replay and fixed, see known_findings.txt).",
+        tech="deductive verification: WP VCs over go/ssa, modular callee contracts with case analysis, opaque spec relation, SMT", ref="4 C05"),
+    "C09": dict(
+        text="Lemmas over the verified kernel contracts: zooming in and back out is the identity on each axis for all 36x36 zoom pairs, descendants partition the finer grid, the ancestor of -1 is -1, Higher (the merge ancestor) is the floor ancestor; the exactness of the pairwise overlap relation (C05) gives overlap of nested voxels.",
+        note=TRUST + "The clauses about point lookup (nesting of point IDs) and merge of all descendants depend on C01/C04 functions that are not under contract yet; they are not decided by this check.",
+        tech="deductive verification: lemmas over function contracts, exhaustive zoom case split, SMT", ref="4 C09"),
+    "C13": dict(
+        text="ConvertTileXYZsToExtendedSpatialIDs is proved against an exact set-level specification: no error iff every tile is in range, the result is duplicate-free and contains exactly the IDs (hZoom,x,y,outV,z) with z in the covering range of C12 of some tile, nil on error; loop and map invariants are quantified over lists of any length.",
+        note=TRUST + "The spatial-ID variant (composition with the expansion) and the TileXYZ setters are covered by the sweep only.",
+        tech="deductive verification: WP VCs over go/ssa, heap model for tile objects, map model with struct keys, SMT", ref="4 C13"),
+    "C16": dict(
+        text="Inputs unmodified: every store site of the library is an F obligation discharged by provenance analysis (no store through a parameter). Order-blindness: every constant-index observation of a slice ordered by map iteration is a D obligation discharged by SMT from the callee contracts. Duplicate-freedom and set-determinism of Unique/Union/Difference/deleteDuplicationList and of the tile and neighbourhood conversions are postconditions proved with map iteration order universally quantified.",
+        note=TRUST + "Set-level determinism of merge, line and corridor rests on the set helpers' contracts only; their own bodies are not fully under contract.",
+        tech="deductive verification (SMT) plus SSA provenance analysis for frame and order obligations", ref="4 C16"),
+    "C19": dict(category="other",
+        text="Frame statement instead of schedules: every store / map update of every function of the library is shown to target memory allocated by the same call, returned fresh by a constructor or the receiver of a declared mutator; no package-level variable is written outside init; dependency code reachable from the library writes no package-level state. A package-level cache or scratch buffer fails an F obligation at its store site.",
+        note="Schedules are not explored; the Go standard library and the per-object effects of the dependencies are trusted; the analysis is syntactic provenance on go/ssa, not SMT.",
+        tech="frame obligations discharged by SSA provenance analysis over the whole library and reachable dependency code", ref="4 C19"),
     "C07": dict(
         text="GetShiftingSpatialID is proved against the modular-translation specification for every canonical ID at every zoom 0..35 (zoom case split, all indices and shifts symbolic within the stated bounds), malformed IDs give the empty string, and zero-shift / composition / inverse laws are lemmas over the contract.",
         note=TRUST + "math.Pow(2,k) and math.Mod on integers below 2^53 are modelled exactly (trusted, validated by setup).",
